@@ -20,3 +20,4 @@ HARNESSES += [H(f"c13_matches_contract_k{k:02d}", crate="ohkami", strength="boun
 TRUSTED = ["ASSUMED CONTRACT: util::base64_decode_utf8 is stubbed by an arbitrary result (Err, or any ASCII string of the shape's length); the base64 crate is not verified",
            "util::unix_timestamp stubbed (clock)"]
 ASSUMPTIONS = ["credentials and configured strings restricted to ASCII of length <= 4 / <= 2"]
+JOBS = 6   # several of these queries need 5-10 GB: 16 at once exhaust the machine
